@@ -88,8 +88,8 @@ class Skip(Exception):
 
 DELIMS = [("comma", ","), ("semicolon", ";"), ("tab", "\t"), ("pipe", "|"), ("space", " "), ("colon", ":")]
 MISSINGS = [("dash", "-"), ("empty", ""), ("NA", "NA"), ("NaN", "NaN"), ("dash2", "--")]
-NAMES = [("plain", "c0"), ("unicode", "größe_Δ"), ("underscore", "_c0"), ("keyword", "class"), ("yamlbool", "no")]
-UNITS = [("absent", ABSENT), ("percent", "percent"), ("dots", "..."), ("pct", "%")]
+NAMES = [("plain", "c0"), ("unicode", "größe_Δ"), ("underscore", "_c0"), ("keyword", "class"), ("yamlbool", "no"), ("astral", "\U0001d700x")]
+UNITS = [("absent", ABSENT), ("percent", "percent"), ("dots", "..."), ("pct", "%"), ("astral", "\U0001d707m")]
 VIAS = ["dict", "terse"]
 CONTAINERS = ["list", "tuple", "ndarray"]
 ROWS = [3, 1, 2]
@@ -104,6 +104,7 @@ FILLS = {
         ("true", "true"),
         ("hashmid", "a #b"),
         ("mapping", "a: b"),
+        ("astral", "\U0001f6ab"),  # a character outside the Basic Multilingual Plane (seed C16f)
     ],
     "i": [("m999", -999), ("zero", 0), ("s_m999", "-999")],
     "f": [("sNaN", "NaN"), ("nan", NAN), ("m1", -1.0), ("inf", INF), ("s_m1", "-1.0")],
